@@ -76,6 +76,8 @@ MCSpec == MCInit /\ [][MCEval]_vars
 NoBad == (bad \ {"C06_Jitter"}) \cap Enforce = {}
 
 MCEs == {0 - 10, 0, 1, 5, 10, 11, 20, 100, 2000}
+(* far past and far future, in kiloseconds (Unit = 1): around 2^31 and 2^32 seconds, 950 years, year 9999 *)
+MCEsFar == {0 - 3200000, 0 - 2200000, 0 - 2000000, 2000000, 2140000, 2150000, 2200000, 3200000, 4300000, 4400000, 30000000, 250000000}
 
 Emit == (phase = "done") => PrintT(<<"REPLAY", ToJson(p)>>)
 =============================================================================
